@@ -1,19 +1,27 @@
 #!/bin/bash
-# Re-runs every imported seeded change against the current /repo tree with the check(s) recorded
-# in its meta.json; prints one line per seed. /repo is restored after each.
-cd /verif
-for d in /verif/seeded/*/; do
-  n=$(basename $d)
-  checks=$(python3 -c "import json;print(' '.join(json.load(open('/verif/seeded/$n/meta.json'))['caught_by']))")
-  if ! git -C /repo apply --check $d/patch.diff 2>/dev/null; then
-    if [ -f $d/patch.rebased.diff ] && git -C /repo apply --check $d/patch.rebased.diff 2>/dev/null; then
-      mkdir -p /verif/out/rebased-$n; cp $d/patch.rebased.diff /verif/out/rebased-$n/patch.diff; d=/verif/out/rebased-$n/; rebased=" (rebased patch)"
+# Re-runs every imported seeded change against the current tree with the check(s) recorded in its
+# meta.json; prints one line per seed. usage: tools/recheck_seeds.sh [--scratch] [names...]
+# Default: applies each change to /repo and restores it (tools/run_seeded.sh). --scratch: applies
+# it to a scratch worktree and runs a scratch copy of /verif (tools/run_seeded_scratch.sh), leaving
+# /repo untouched.
+cd "$(dirname "$0")/.."
+runner=tools/run_seeded.sh; tree=/repo
+if [ "${1:-}" = "--scratch" ]; then runner=tools/run_seeded_scratch.sh; shift; fi
+names="$@"; [ -z "$names" ] && names=$(ls -d seeded/*/ | xargs -n1 basename)
+for n in $names; do
+  d=$PWD/seeded/$n
+  checks=$(python3 -c "import json;print(' '.join(json.load(open('$d/meta.json'))['caught_by']))")
+  rebased=""
+  if ! git -C $tree apply --check $d/patch.diff 2>/dev/null; then
+    if [ -f $d/patch.rebased.diff ] && git -C $tree apply --check $d/patch.rebased.diff 2>/dev/null; then
+      mkdir -p out/rebased-$n; cp $d/patch.rebased.diff out/rebased-$n/patch.diff; d=$PWD/out/rebased-$n; rebased=" (rebased patch)"
     else echo "RECHECK $n: patch no longer applies to the current tree"; continue; fi
-  else rebased=""; fi
+  fi
   res=""
   for c in $checks; do
-    out=$(tools/run_seeded.sh $d $c 2>&1 | grep "^SEEDED" | sed 's/.*rc=//')
+    out=$($runner $d $c 2>&1 | grep "^SEEDED" | sed 's/.*rc=//')
     res="$res $c:rc=$out"
   done
+  [ -z "$checks" ] && res=" (not detected by design, see meta.json)"
   echo "RECHECK $n$rebased:$res"
 done
